@@ -264,7 +264,7 @@ func init() {
 	progs := c17Programs()
 	core.Register(&core.Check{
 		ID:          "C17",
-		Rule:        "all evaluate-option lists of length 0..3 (quick) / 0..4 (thorough), in every order, over an 11-symbol alphabet {valid System value, valid element, valid collection, duplicate name, predefined context, predefined ucum, unsupported Go int, unsupported item first / last inside a collection, nil, OverrideTime} x 18 programs referencing each variable at the root, in a function argument, in where/select criteria and an iif branch, plus %context, %ucum, %unknown, delimited and string-named variables and an instrumented custom function; all compile-option lists of length 0..2 (quick) / 0..3 (thorough) over a 21-symbol alphabet (incl. a custom function named like the experimental join, which WithExperimentalFuncs must not override) {zero-arg fn, same name again, built-in name, 9 bad signatures (wrong first parameter, wrong results, no parameters, non-function, nil, concrete error pointer / value as second result, three results, first result not a Collection), typed-arg fns, variadic, Permissive, WithExperimentalFuncs, Transform} x 19 call sites; the same evaluate-option lists (length <=2) on the four FHIRPatch operations of a path that reads a variable; outcomes compared with a reference fold of the contract written in the harness; non-trivial = distinct (option list, program, outcome)",
+		Rule:        "all evaluate-option lists of length 0..3 (quick) / 0..4 (thorough), in every order, over an 11-symbol alphabet {valid System value, valid element, valid collection, duplicate name, predefined context, predefined ucum, unsupported Go int, unsupported item first / last inside a collection, nil, OverrideTime} x 18 programs referencing each variable at the root, in a function argument, in where/select criteria and an iif branch, plus %context, %ucum, %unknown, delimited and string-named variables and an instrumented custom function; all compile-option lists of length 0..2 (quick) / 0..3 (thorough) over a 21-symbol alphabet (incl. a custom function named like the experimental join, which WithExperimentalFuncs must not override) {zero-arg fn, same name again, built-in name, 9 bad signatures (wrong first parameter, wrong results, no parameters, non-function, nil, concrete error pointer / value as second result, three results, first result not a Collection), typed-arg fns, variadic, Permissive, WithExperimentalFuncs, Transform} x 19 call sites; histories of <=3 evaluations that reuse the same option values (outcome as with freshly built options); the same evaluate-option lists (length <=2) on the four FHIRPatch operations of a path that reads a variable; outcomes compared with a reference fold of the contract written in the harness; non-trivial = distinct (option list, program, outcome)",
 		Assumptions: []string{"the reference fold (left-to-right map pre-seeded with context/ucum; which sentinel errors must be reported) is hand-written from the statement"},
 		Subs: func(tier string) []core.Sub {
 			eLen, cLen := 4, 3
@@ -372,6 +372,85 @@ func init() {
 						}
 						if p.name == "probe" && (st.calls != 1 || len(st.seen) != 1 || !c10SameSeq(st.seen[0], []any{in[0]})) {
 							r.Fail("eval-options|probe|ok|custom-function-input", w(fmt.Sprintf("calls=%d", st.calls)))
+						}
+					}
+				}},
+				{Name: "option-reuse", N: 21, Note: "option VALUES (not just equal options) reused across evaluations: every history of <=3 evaluations whose option lists (length <=2) are drawn from 4 shared option objects; each outcome must equal the outcome with freshly built options", Run: func(i int, r *core.Rec) {
+					type optDef struct {
+						id string
+						mk func() fhirpath.EvaluateOption
+					}
+					defs := []optDef{
+						{"a=Smith", func() fhirpath.EvaluateOption { return evalopts.EnvVariable("a", system.String("Smith")) }},
+						{"a=Other", func() fhirpath.EvaluateOption { return evalopts.EnvVariable("a", system.String("Other")) }},
+						{"context=1", func() fhirpath.EvaluateOption { return evalopts.EnvVariable("context", system.Integer(1)) }},
+						{"u=go-int", func() fhirpath.EvaluateOption { return evalopts.EnvVariable("u", 3) }},
+					}
+					var lists [][]int
+					lists = append(lists, nil)
+					for a := range defs {
+						lists = append(lists, []int{a})
+					}
+					for a := range defs {
+						for b := range defs {
+							lists = append(lists, []int{a, b})
+						}
+					}
+					outcome := func(e *fhirpath.Expression, opts []fhirpath.EvaluateOption) string {
+						res := lib.EvalOpts(lib.Res{Expr: e}, []fhir.Resource{lib.Patient()}, opts...)
+						switch {
+						case res.Panic != nil:
+							return "PANIC " + res.Panic.Key()
+						case res.Err != nil:
+							switch {
+							case errors.Is(res.Err, fhirpath.ErrExistingConstant):
+								return "ErrExistingConstant"
+							case errors.Is(res.Err, fhirpath.ErrUnsupportedType):
+								return "ErrUnsupportedType"
+							}
+							return "error"
+						}
+						return lib.ShowColl(res.Coll)
+					}
+					name := func(l []int) string {
+						var ids []string
+						for _, k := range l {
+							ids = append(ids, defs[k].id)
+						}
+						return "[" + strings.Join(ids, ", ") + "]"
+					}
+					for _, src := range []string{"%a", "Patient.name.where(family = %a).count()"} {
+						e, err := fhirpath.Compile(src)
+						if err != nil {
+							r.Fail("option-reuse|does-not-compile", core.W{"src": src})
+							continue
+						}
+						first := lists[i]
+						for _, second := range lists {
+							for _, third := range lists[:5] { // the third evaluation: no option or one of the four
+								shared := make([]fhirpath.EvaluateOption, len(defs))
+								for k := range defs {
+									shared[k] = defs[k].mk()
+								}
+								var hist []string
+								for _, l := range [][]int{first, second, third} {
+									var withShared, fresh []fhirpath.EvaluateOption
+									for _, k := range l {
+										withShared = append(withShared, shared[k])
+										fresh = append(fresh, defs[k].mk())
+									}
+									got := outcome(e, withShared)
+									want := outcome(e, fresh)
+									r.Eval()
+									r.Eval()
+									hist = append(hist, name(l))
+									r.State("option-reuse|" + src)
+									r.Nontrivial(src, strings.Join(hist, ";"), got)
+									if got != want {
+										r.Fail("option-reuse|outcome-differs-from-freshly-built-options|"+want+"->"+got, core.W{"src": src, "history_of_option_lists": hist, "outcome": got, "with_fresh_options": want})
+									}
+								}
+							}
 						}
 					}
 				}},
